@@ -124,3 +124,45 @@ func OperatorAt(src []byte, i int) string {
 	}
 	return ""
 }
+
+// LiteralInterior scans JavaScript-subset text and reports, per line, whether
+// the line's first byte lies inside a string or backtick literal (so that its
+// leading white space is literal content, not indentation).
+func LiteralInterior(src string) []bool {
+	lines := 1
+	for i := 0; i < len(src); i++ {
+		if src[i] == '\n' {
+			lines++
+		}
+	}
+	inside := make([]bool, lines)
+	line := 0
+	i := 0
+	b := []byte(src)
+	for i < len(b) {
+		c := b[i]
+		switch {
+		case c == '\n':
+			line++
+			i++
+		case c == '/' && i+1 < len(b) && b[i+1] == '/':
+			for i < len(b) && b[i] != '\n' {
+				i++
+			}
+		case c == '"' || c == '\'' || c == '`':
+			end, _ := StringEnd(b, i)
+			for k := i; k < end; k++ {
+				if b[k] == '\n' {
+					line++
+					if k+1 < end {
+						inside[line] = true
+					}
+				}
+			}
+			i = end
+		default:
+			i++
+		}
+	}
+	return inside
+}
